@@ -27,7 +27,7 @@ RULE = ("random problems x hand-built libraries, in-memory and file/pool paths, 
 
 
 def plan(ctx):
-    return [("post", i) for i in range(60 if ctx.thorough else 22)]
+    return [("post", i) for i in range(150 if ctx.thorough else 22)]
 
 
 def linear_names(pr):
